@@ -53,7 +53,7 @@ extern "C" int munmap(void *addr, size_t len) noexcept {
 
 namespace vf {
 using MapFn = CaseResult (*)(const RunCtx &, TapeReader &, unsigned size_hint);
-#define VF_DECL(ID) extern const MapFn MAPPED_TABLE_##ID[6];
+#define VF_DECL(ID) extern const MapFn MAPPED_TABLE_##ID[7];
 VF_DECL(u16) VF_DECL(i16) VF_DECL(u32) VF_DECL(i32) VF_DECL(u64) VF_DECL(i64)
 
 static CaseResult run(const RunCtx &ctx, const Tape &tape, Tape &canon) {
@@ -62,7 +62,7 @@ static CaseResult run(const RunCtx &ctx, const Tape &tape, Tape &canon) {
     unsigned size_hint = (unsigned) t.below(101);
     static const unsigned tw[] = {3, 3, 2, 2, 1, 1};
     size_t kt = t.weighted(tw);
-    size_t cfg = t.below(6);
+    size_t cfg = t.below(7);
     if (ctx.mode == "mem" && t.chance(1, 2)) size_hint = std::min(size_hint, 12u); // C17: boundary sizes (n = 1, 2, 3) every other case
     CaseResult r = T[kt][cfg](ctx, t, size_hint);
     canon = t.canon();
@@ -72,7 +72,7 @@ static CaseResult run(const RunCtx &ctx, const Tape &tape, Tape &canon) {
 static const char *rule(const std::string &prop) {
     if (prop == "C11")
         return "cases: duplicate-heavy generated sorted arrays (runs of length 2, eps, eps+1, 2eps..2eps+3, 4eps, 2^k+-1, >> eps; runs ending at n) over "
-               "{u16,i16,u32,i32,u64,i64} x 6 (Epsilon in {1,4,8,128}, EpsilonRecursive in {0,4}, Floating in {float,double}) MappedPGMIndex configurations, 3/4 built from an iterator "
+               "{u16,i16,u32,i32,u64,i64} x 7 (Epsilon in {1,4,8,128}, EpsilonRecursive in {0,4,64}, Floating in {float,double}) MappedPGMIndex configurations, 3/4 built from an iterator "
                "range (vector iterators, raw pointers, std::deque iterators, reverse iterators, 1/4 each) and 1/4 from a raw key file; in half of the cases a longer stale file sits at an output path; queries = keys, +-1, gap mid-points, boundaries, far values. oracle: std::lower_bound / upper_bound / "
                "count / binary_search, begin()..end() equals the data, size(). non-trivial: a queried run longer than 2eps+2 and a query outside "
                "[front, back]; distinct by canonical tape hash";
